@@ -220,6 +220,9 @@ func (g *srcGen) ref() string {
 
 func (g *srcGen) strLit() string {
 	pieces := []string{"a", "b c", "value", "\\\\", "\\\"", "\\\n", "é", "日本", "\t", " ", "​", "\U0001F600", "/", "//", "*", "|", "{", "#", "\r", "\x01", "'"}
+	if g.r.Chance(12) { // the escaped newline as the only escape
+		return "\"" + vh.Pick(g.r, []string{"a", "line one", ""}) + "\\\n" + vh.Pick(g.r, []string{"b", "line two", "", "c\\\nd"}) + "\""
+	}
 	var sb strings.Builder
 	sb.WriteString("\"")
 	for k := g.r.Range(0, 4); k > 0; k-- {
@@ -302,7 +305,7 @@ func (g *srcGen) tag() string {
 }
 
 func (g *srcGen) descLine() string {
-	words := []string{"word", "a", "Description", "over", "multiple", "lines", "é", "tab\tin", "x  y", strings.Repeat("W", 40), strings.Repeat("V", 78)}
+	words := []string{"word", "a", "Description", "over", "multiple", "lines", "é", "tab\tin", "x  y", strings.Repeat("W", 40), strings.Repeat("V", 78), strings.Repeat("L", 85), strings.Repeat("K", 130)}
 	var parts []string
 	for k := g.r.Range(0, 14); k > 0; k-- {
 		parts = append(parts, vh.Pick(g.r, words))
